@@ -9,6 +9,7 @@ pub mod c06;
 pub mod c09;
 pub mod c11;
 pub mod c12;
+pub mod c13;
 pub mod c14;
 
 pub fn c03_targeted_small() -> Vec<String> {
@@ -27,6 +28,7 @@ macro_rules! dispatch {
             "C09" => c09::$f($ctx $(, $arg)?),
             "C11" => c11::$f($ctx $(, $arg)?),
             "C12" => c12::$f($ctx $(, $arg)?),
+            "C13" => c13::$f($ctx $(, $arg)?),
             "C14" => c14::$f($ctx $(, $arg)?),
             other => {
                 eprintln!("unknown monitor {other}");
